@@ -21,6 +21,7 @@ use crate::{
 };
 
 pub(super) struct Chain {
+    seed: u64,
     pub(super) w: World,
     /// the canonical chain
     pub(super) blocks: Vec<v2::FinalBlock>,
@@ -48,7 +49,7 @@ pub(super) fn chain(seed: u64, len: usize) -> Chain {
     let invalid2 = w.final_block(&pi, &w.commit_qc(&w.commit_vote(3, 2, &pi), 0b001));
     let mut swapped3 = blocks.get(3).cloned().unwrap_or_else(|| blocks[blocks.len() - 1].clone());
     swapped3.payload = Payload(vec![0x5A, 0x5A, 3]);
-    Chain { w, blocks, conflicting1, invalid2, swapped3 }
+    Chain { seed, w, blocks, conflicting1, invalid2, swapped3 }
 }
 
 #[derive(Clone, Debug, PartialEq)]
@@ -77,6 +78,8 @@ struct StoreInner {
     release: sync::Semaphore,
     /// get_block calls that reached storage (cache misses)
     storage_reads: Mutex<u64>,
+    /// rotating validator schedule: (committee of epoch 0 from block 0, committee of epoch 1, its first block)
+    dynamic: Option<(validator::Schedule, validator::Schedule, u64)>,
 }
 
 #[derive(Clone)]
@@ -112,11 +115,19 @@ impl EngineInterface for Store {
     async fn genesis(&self, _ctx: &ctx::Ctx) -> ctx::Result<validator::Genesis> {
         Ok(self.0.genesis.clone())
     }
-    async fn get_validator_schedule(&self, _ctx: &ctx::Ctx, _n: BlockNumber) -> ctx::Result<(validator::Schedule, BlockNumber)> {
-        Err(anyhow::format_err!("static").into())
+    async fn get_validator_schedule(&self, _ctx: &ctx::Ctx, n: BlockNumber) -> ctx::Result<(validator::Schedule, BlockNumber)> {
+        match &self.0.dynamic {
+            None => Err(anyhow::format_err!("static").into()),
+            // the schedule that is active at block n, with its activation block
+            Some((a, b, b_from)) => Ok(if n.0 < *b_from { (a.clone(), BlockNumber(0)) } else { (b.clone(), BlockNumber(*b_from)) }),
+        }
     }
-    async fn get_pending_validator_schedule(&self, _ctx: &ctx::Ctx, _n: BlockNumber) -> ctx::Result<Option<(validator::Schedule, BlockNumber)>> {
-        Ok(None)
+    async fn get_pending_validator_schedule(&self, _ctx: &ctx::Ctx, n: BlockNumber) -> ctx::Result<Option<(validator::Schedule, BlockNumber)>> {
+        match &self.0.dynamic {
+            // the next epoch's committee is known while the chain is still in epoch 0
+            Some((_, b, b_from)) if n.0 < *b_from => Ok(Some((b.clone(), BlockNumber(*b_from)))),
+            _ => Ok(None),
+        }
     }
     fn persisted(&self) -> sync::watch::Receiver<BlockStoreState> {
         self.0.persisted.subscribe()
@@ -183,6 +194,7 @@ fn run_once(ch: &Ch, chn: &Chain, scenario: u32) -> ExecResult {
         prev_submitted: Mutex::new(None),
         release: sync::Semaphore::new(0),
         storage_reads: Mutex::new(0),
+        dynamic: None,
     }));
     let st2 = store.clone();
     let sch = Arc::new(SendCh(ch.clone()));
@@ -380,6 +392,21 @@ fn new_store(genesis: &validator::Genesis) -> Store {
         prev_submitted: Mutex::new(None),
         release: sync::Semaphore::new(0),
         storage_reads: Mutex::new(0),
+        dynamic: None,
+    }))
+}
+
+fn new_store_dynamic(genesis: &validator::Genesis, a: &validator::Schedule, b: &validator::Schedule, b_from: u64) -> Store {
+    Store(Arc::new(StoreInner {
+        genesis: genesis.clone(),
+        persisted: sync::watch::channel(BlockStoreState { first: BlockNumber(0), last: None }).0,
+        first: Mutex::new(0),
+        blocks: Mutex::new(vec![]),
+        log: Mutex::new(vec![]),
+        prev_submitted: Mutex::new(None),
+        release: sync::Semaphore::new(0),
+        storage_reads: Mutex::new(0),
+        dynamic: Some((a.clone(), b.clone(), b_from)),
     }))
 }
 
@@ -405,6 +432,14 @@ where
             s.spawn_bg(async move {
                 for b in plan {
                     let (n, id) = (b.number().0, block_id(&b));
+                    if st.0.dynamic.is_some() {
+                        // rotating schedule: a block is offered once the committee of the epoch it claims is known
+                        if let validator::Block::FinalV2(f) = &b {
+                            if mgr.wait_for_validator_schedule(ctx, f.epoch()).await.is_err() {
+                                return Ok(());
+                            }
+                        }
+                    }
                     match mgr.queue_block(ctx, b).await {
                         Ok(()) => st.0.log.lock().unwrap().push(Ev::QueueOk { n, id }),
                         Err(ctx::Error::Canceled(_)) => return Ok(()),
@@ -573,6 +608,107 @@ fn run_prune_restart(ch: &Ch, chn: &Chain) -> ExecResult {
     ExecResult { obs: fx_hash(&format!("{lg:?}")), violation, nontrivial: true, witnesses: vec![("prunes", prunes), ("restart_with_unpersisted_blocks", lost)] }
 }
 
+/// Scenario 5: a rotating validator schedule (none in the genesis): blocks 0-2 belong to epoch 0 and
+/// are certified by committee A, blocks 3-4 to epoch 1 and committee B (other keys). The node stores
+/// some blocks, restarts at an explorer-chosen point (in particular exactly at the last block of epoch
+/// 0), and is then offered blocks of the wrong committee for their epoch next to the genuine ones.
+struct EpochChain {
+    genesis: validator::Genesis,
+    a: validator::Schedule,
+    b: validator::Schedule,
+    blocks: Vec<validator::Block>,
+    /// block 3 claiming epoch 0, certified by committee B (the committee of epoch 1)
+    forged3_epoch0_by_b: validator::Block,
+    /// block 3 claiming epoch 1, certified by committee A (the committee of epoch 0)
+    forged3_epoch1_by_a: validator::Block,
+}
+
+fn epoch_chain(seed: u64) -> EpochChain {
+    let ca = util::committee(seed, &[1, 1, 1]);
+    let cb = util::committee(seed ^ 0xB0B, &[1, 1, 1]);
+    let genesis = validator::GenesisRaw { chain_id: validator::ChainId(1337), fork_number: validator::ForkNumber(0), protocol_version: validator::ProtocolVersion::CURRENT, first_block: BlockNumber(0), validators_schedule: None }.with_hash();
+    let world = |c: &util::Committee, epoch: u64| World { c: util::Committee { keys: c.keys.clone(), weights: c.weights.clone(), schedule: c.schedule.clone(), genesis: genesis.clone(), epoch: validator::EpochNumber(epoch) }, proposals: vec![], invalid_payload: Payload(vec![]) };
+    let (wa0, wb1, wb0, wa1) = (world(&ca, 0), world(&cb, 1), world(&cb, 0), world(&ca, 1));
+    let mk = |w: &World, n: u64, p: Payload| -> validator::Block { w.final_block(&p, &w.commit_qc(&w.commit_vote(n + 1, n, &p), 0b111)).into() };
+    let blocks: Vec<validator::Block> = (0..5u64).map(|n| mk(if n < 3 { &wa0 } else { &wb1 }, n, Payload(vec![0x20 + n as u8, 9]))).collect();
+    EpochChain { genesis: genesis.clone(), a: ca.schedule.clone(), b: cb.schedule.clone(), blocks, forged3_epoch0_by_b: mk(&wb0, 3, Payload(vec![0xF0, 3])), forged3_epoch1_by_a: mk(&wa1, 3, Payload(vec![0xF1, 3])) }
+}
+
+fn run_epochs(ch: &Ch, ec: &EpochChain) -> ExecResult {
+    let store = new_store_dynamic(&ec.genesis, &ec.a, &ec.b, 3);
+    let st2 = store.clone();
+    let sch = Arc::new(SendCh(ch.clone()));
+    let restart_at: Arc<Mutex<u64>> = Default::default();
+    let ra2 = restart_at.clone();
+    let stuck = sched::run(ch, |idle| async move {
+        let clock = ctx::ManualClock::new();
+        let root = ctx::test_root(&clock);
+        let (root, st, sch, idle_ref, clock) = (&root, &st2, &sch, &idle, &clock);
+        let blk = |i: usize| -> validator::Block { ec.blocks[i].clone() };
+        let fut = async move {
+            // first incarnation: blocks 0..2 (epoch 0) are offered; the node dies after 1, 2 or 3 of them
+            // are durable (3 = exactly the last block of epoch 0)
+            let plans = vec![vec![blk(0), blk(1), blk(2)]];
+            let stop_after = 3 - env_choose(&sch.0, 3) as u64;
+            *ra2.lock().unwrap() = stop_after;
+            incarnation(root, st, plans, true, |_mgr| async move {
+                for _ in 0..stop_after {
+                    idle_ref.settle().await;
+                    st.0.release.add_permits(1);
+                }
+                idle_ref.settle().await;
+                Ok(())
+            })
+            .await?;
+            while st.0.release.try_acquire().map(|p| p.forget()).is_ok() {}
+            *st.0.prev_submitted.lock().unwrap() = None;
+            st.0.log.lock().unwrap().push(Ev::Restart { durable_first: *st.0.first.lock().unwrap(), durable_next: st.next() });
+            // second incarnation: two peers; one offers the forged blocks 3 before the genuine chain, the
+            // other the genuine chain. A block whose epoch's committee is not known yet is refused (the
+            // peer retries later, as the fetch loop does), so both offer everything three times.
+            let offer = |forged: bool| -> Vec<validator::Block> {
+                let mut v = vec![];
+                for _ in 0..3 {
+                    if forged {
+                        v.push(ec.forged3_epoch0_by_b.clone());
+                        v.push(ec.forged3_epoch1_by_a.clone());
+                    }
+                    v.extend((0..5).map(blk));
+                }
+                v
+            };
+            let plans = vec![offer(true), offer(false)];
+            incarnation(root, st, plans, true, |_mgr| async move {
+                for _ in 0..40 {
+                    idle_ref.settle().await;
+                    st.0.release.add_permits(1);
+                    // the runner polls for the next epoch's committee once per fetch interval
+                    clock.advance(time::Duration::seconds(1));
+                }
+                idle_ref.settle().await;
+                Ok(())
+            })
+            .await
+        };
+        match sched::drive(&idle, fut, |k| k < 400).await {
+            sched::Driven::Done(r) => r.err().map(|e| format!("{e:#}")),
+            sched::Driven::Stuck => Some("STUCK".into()),
+        }
+    });
+    let lg = store.0.log.lock().unwrap().clone();
+    let canon: Vec<u64> = ec.blocks.iter().map(block_id).collect();
+    let mut violation = stuck.map(|s| format!("deadlock / error: {s}"));
+    if violation.is_none() {
+        violation = check_log(&lg, &canon).map(|v| format!("rotating validator schedule (epoch 0: blocks 0-2, committee A; epoch 1: blocks 3-4, committee B), restart with {} durable blocks: {v}", restart_at.lock().unwrap()));
+    }
+    if violation.is_none() && store.next() < 5 {
+        violation = Some(format!("rotating validator schedule, restart with {} durable blocks: only {} of 5 blocks reached durable storage although the genuine chain was offered three times and persistence kept completing writes", restart_at.lock().unwrap(), store.next()));
+    }
+    let violation = violation.map(|v| format!("{v}; events: {}", short_log(&lg)));
+    let at_boundary = (*restart_at.lock().unwrap() == 3) as u64;
+    ExecResult { obs: fx_hash(&format!("{lg:?}")), violation, nontrivial: true, witnesses: vec![("restart_at_epoch_boundary", at_boundary), ("epoch1_blocks_stored", (store.next() >= 5) as u64)] }
+}
+
 const LONG: usize = 108; // CACHE_CAPACITY (100) + 8
 
 /// Scenario 4: a chain longer than the cache capacity with a lagging persister: eviction may only
@@ -658,6 +794,7 @@ fn long_chain(seed: u64) -> (validator::Genesis, Vec<validator::Block>) {
 
 fn run_scenario(ch: &Ch, chn: &Chain, lgen: &validator::Genesis, long: &[validator::Block], sc: u32) -> ExecResult {
     match sc {
+        5 => run_epochs(ch, &epoch_chain(chn.seed)),
         3 => run_prune_restart(ch, chn),
         4 => run_eviction(ch, lgen, long),
         _ => run_once(ch, chn, sc),
@@ -692,10 +829,12 @@ pub fn run(args: &Args) -> Report {
     let mut stats = vec![];
     let (lg, lb) = long_chain(args.seed);
     let (mut prunes, mut restarts_lossy, mut storage_reads) = (0u64, 0u64, 0u64);
-    for (k, sc) in [2u32, 3, 4, 1].into_iter().enumerate() {
+    let mut epoch_boundary_restarts = 0u64;
+    for (k, sc) in [5u32, 2, 3, 4, 1].into_iter().enumerate() {
         let b = bound;
-        let cfg = ExploreCfg::new(&format!("engine-manager[scenario {sc}]"), b, budget.saturating_sub(t0.elapsed()) / (4 - k as u32));
+        let cfg = ExploreCfg::new(&format!("engine-manager[scenario {sc}]"), b, if sc == 5 { Duration::from_secs(args.tier.pick(6, 120)) } else { budget.saturating_sub(t0.elapsed()) / (5 - k as u32) });
         let st = explore(&cfg, |ch| run_scenario(ch, &chn, &lg, &lb, sc));
+        epoch_boundary_restarts += *st.witnesses.get("restart_at_epoch_boundary").unwrap_or(&0);
         prunes += *st.witnesses.get("prunes").unwrap_or(&0);
         restarts_lossy += *st.witnesses.get("restart_with_unpersisted_blocks").unwrap_or(&0);
         storage_reads += *st.witnesses.get("reads_served_by_storage").unwrap_or(&0);
@@ -706,6 +845,9 @@ pub fn run(args: &Args) -> Report {
         side += *st.witnesses.get("side_channel_jump").unwrap_or(&0);
         rep.absorb("c08", &st, json!({"scenario": sc}));
         stats.push(st.to_json());
+    }
+    if rep.violations.is_empty() && epoch_boundary_restarts == 0 {
+        rep.machinery_errors.push("vacuous: no execution restarted exactly at the last block of an epoch".into());
     }
     if rep.violations.is_empty() && side == 0 {
         rep.machinery_errors.push("vacuous: no execution had a side-channel persistence jump".into());
@@ -719,7 +861,9 @@ pub fn run(args: &Args) -> Report {
         "blocks_from_peers_part": net_cov,
         "states": execs, "transitions": points, "traces_validated_against_impl": execs,
         "evaluations": execs, "distinct_nontrivial": distinct,
+        "witness_restarts_at_epoch_boundary": epoch_boundary_restarts,
         "samples": [
+            {"scenario": 5, "case": "rotating validator schedule (no schedule in the genesis; the execution layer reports committee A for blocks 0-2 = epoch 0 and committee B from block 3 = epoch 1): blocks 0-2 are offered, the node dies with 1, 2 or 3 of them durable (3 = exactly the last block of epoch 0), a new manager is built over the durable image, and two peers offer the chain three times over, one of them preceded each time by a block 3 claiming epoch 0 but certified by committee B and a block 3 claiming epoch 1 but certified by committee A; the fetch interval passes on the manual clock"},
             {"scenario": 1, "case": "five submitters: [a pre-genesis-style block (external justification only) numbered genesis.first_block], [b0,b1,b2], [b1, a conflicting certified block 1, b3], [block 2 with an under-weight certificate, b0], [the certificate of b3 attached to a foreign payload]; persistence completes writes one at a time or lags"},
             {"scenario": 2, "case": "submitters [b0,b1], [b4], [b1]; blocks 2-3 only arrive through a side-channel persistence jump that overtakes the queue"},
             {"scenario": 3, "case": "submitters [b0,b1,b2], [b1,b2,b3]; persistence completes a write / prunes the oldest block / the node crashes (in-flight writes lost); a new manager over the durable image; a syncing peer offers b0..b4 again"},
